@@ -15,8 +15,9 @@ UNOPS = ["-", "!", "~", "*", "&", "++", "--"]
 
 
 class Gen:
-    def __init__(self, rng, lang="C", depth=3, comments=True, preproc=True, stats=None, cmt_prob=0.12):
+    def __init__(self, rng, lang="C", depth=3, comments=True, preproc=True, stats=None, cmt_prob=0.12, nested_nobrace=False):
         self.cmt_prob = cmt_prob
+        self.nested_nobrace = nested_nobrace      # brace-less bodies may be control statements themselves (`while (a) if (b) x; else y;`)
         self.r = rng
         self.lang = lang
         self.maxdepth = depth
@@ -193,16 +194,34 @@ class Gen:
             self.hit("stmt:break")
             self.emit(depth, [r.choice(["break", "continue"]), ";"])
 
-    def body(self, depth, d, braces=None):
+    def body(self, depth, d, braces=None, may_nest=False):
         """statement forming the body of a control construct: block or single statement"""
         r = self.r
         if braces is None:
-            braces = r.random() < 0.7
+            braces = r.random() < (0.55 if self.nested_nobrace else 0.7)
         if braces:
             self.emit(depth, ["{"], "open")
             for _ in range(r.randrange(0, 4)):
                 self.stmt(depth + 1, d - 1)
             self.emit(depth, ["}"], "close")
+        elif self.nested_nobrace and may_nest and d > 0 and r.random() < 0.5:
+            # a control statement as brace-less body (never directly under an `if` that may get an `else`: no dangling else)
+            self.hit("body:nobrace-nested")
+            k = r.random()
+            if may_nest == "noif":
+                k = 0.6 + 0.4 * k       # `else` + `if` on the next line is an else-if chain for uncrustify, not a nested statement
+            if k < 0.6:
+                self.emit(depth + 1, ["if", "("] + self.expr(1) + [")"], "head")
+                self.body(depth + 1, d - 1)
+                if r.random() < 0.7:
+                    self.emit(depth + 1, ["else"], "head")
+                    self.body(depth + 1, d - 1, may_nest="noif")
+            elif k < 0.8:
+                self.emit(depth + 1, ["while", "("] + self.expr(1) + [")"], "head")
+                self.body(depth + 1, d - 1, may_nest=True)
+            else:
+                self.emit(depth + 1, ["for", "(", ";", ";", ")"], "head")
+                self.body(depth + 1, d - 1, may_nest=True)
         else:
             self.hit("body:nobrace")
             self.simple(depth + 1)
@@ -228,18 +247,18 @@ class Gen:
             if r.random() < 0.4:
                 self.hit("stmt:else")
                 self.emit(depth, ["else"], "head")
-                self.body(depth, d)
+                self.body(depth, d, may_nest="noif")
         elif k < 0.78:
             self.hit("stmt:while")
             self.emit(depth, ["while", "("] + self.expr(2) + [")"], "head")
-            self.body(depth, d)
+            self.body(depth, d, may_nest=True)
         elif k < 0.86:
             self.hit("stmt:for")
             init = [self.ident(), "="] + self.expr(1) if r.random() < 0.8 else []
             cond = self.expr(1) if r.random() < 0.8 else []
             inc = [self.ident(), "++"] if r.random() < 0.8 else []
             self.emit(depth, ["for", "("] + init + [";"] + cond + [";"] + inc + [")"], "head")
-            self.body(depth, d)
+            self.body(depth, d, may_nest=True)
         elif k < 0.90:
             self.hit("stmt:do")
             self.emit(depth, ["do"], "head")
